@@ -29,7 +29,7 @@ from saml2_tophat.config import SPConfig
 from saml2_tophat.saml import NameID, NAMEID_FORMAT_TRANSIENT
 
 CLAIM = {
-    "text": "Coq theorems (Props/C17.v, all closed). IDENTITY PROVIDER, on an executable model of Server._authn_response / Entity._response / _encrypt_assertion with symbolic XML (EncryptedData = key + plaintext subtree, a signature reveals what it covers): C17_confidential / C17_confidential_advice — for EVERY option combination (sign_response, sign_assertion, encrypt_assertion, encrypted_advice_attributes, pefim, self-contained), every encrypt_cert_* argument and every list of metadata certificates, if encrypt_assertion (resp. PEFIM advice encryption) is requested and the SP has an encryption certificate (metadata or argument), then what an observer can read off the response, and whether one is emitted, is IDENTICAL for any two identities (name id, attribute names, attribute values; for advice: the attributes) — non-interference, with the string form C17_no_identity_string / C17_no_advice_attribute_string; C17_opens_only_under_sp_key — every ciphertext at any depth is for a usable certificate supplied for that SP; C17_all_certificates_fail_raises; C17_confidential_advice_before_fix_refuted keeps the repaired leak visible. SERVICE PROVIDER, shared pipeline model (the one of C02/C04/C05): C17_same_checks — the assertion stage accepts iff the stage that sends decrypted assertions through the plain path (signature looked at again) accepts, with the same state; C17_decrypted_checked — the C04/C05 facts hold for every decrypted assertion of an accepted response and its signature, if any, verified; C17_reads_exactly_processed; C17_undecryptable — nothing opens => no assertion, no name id. SERVICE PROVIDER, document trees (EncryptedData anywhere: advice, nested, stray, plaintext inside EncryptedAssertion; any key set, tool policy {fail, skip}, fault schedule; the state a failed first attempt leaves behind): C17_second_loop_only_adds — decrypting never removes or alters an assertion already seen; C17_second_loop_sees_nothing_new / C17_tree_assertion_facts — with the id comparison after the second loop, EVERY assertion read (also after the retry) had its signature verified and is accepted by the plain-path function; C17_second_loop_before_fix_refuted (one failing decrypt call lets an assertion with a bad signature through) and C17_skipping_tool_before_fix_refuted keep the repaired defect visible. ONLY TESTED: agreement of the three models with the code (correspondence), the byte-level leak search (raw, XML-escaped, percent, numeric-entity, base64 at 3 alignments, hex), opening with each harness key, the IdP->SP round trip with first/second/no matching key pair, the C04/C05 mutations inside the plaintext.",
+    "text": "Coq theorems (Props/C17.v, all closed). IDENTITY PROVIDER, on an executable model of Server._authn_response / Entity._response / _encrypt_assertion with symbolic XML (EncryptedData = key + plaintext subtree, a signature reveals what it covers): C17_confidential / C17_confidential_advice — for EVERY option combination (sign_response, sign_assertion, encrypt_assertion, encrypted_advice_attributes, pefim, self-contained), every encrypt_cert_* argument and every list of metadata certificates, if encrypt_assertion (resp. PEFIM advice encryption) is requested and the SP has an encryption certificate (metadata or argument), then what an observer can read off the response, and whether one is emitted, is IDENTICAL for any two identities (name id, attribute names, attribute values; for advice: the attributes) — non-interference, with the string form C17_no_identity_string / C17_no_advice_attribute_string; C17_opens_only_under_sp_key — every ciphertext at any depth is for a usable certificate supplied for that SP; C17_verified_certificate_used — a configured verify_encrypt_cert_* callable accepted the certificate used; C17_all_certificates_fail_raises; C17_confidential_advice_before_fix_refuted keeps the repaired leak visible. SERVICE PROVIDER, shared pipeline model (the one of C02/C04/C05): C17_same_checks — the assertion stage accepts iff the stage that sends decrypted assertions through the plain path (signature looked at again) accepts, with the same state; C17_decrypted_checked — the C04/C05 facts hold for every decrypted assertion of an accepted response and its signature, if any, verified; C17_reads_exactly_processed; C17_undecryptable — nothing opens => no assertion, no name id. SERVICE PROVIDER, document trees (EncryptedData anywhere: advice, nested, stray, plaintext inside EncryptedAssertion; any key set, tool policy {fail, skip}, fault schedule; the state a failed first attempt leaves behind): C17_second_loop_only_adds — decrypting never removes or alters an assertion already seen; C17_second_loop_sees_nothing_new / C17_tree_assertion_facts — with the id comparison after the second loop, EVERY assertion read (also after the retry) had its signature verified and is accepted by the plain-path function; C17_second_loop_before_fix_refuted (one failing decrypt call lets an assertion with a bad signature through) and C17_skipping_tool_before_fix_refuted keep the repaired defect visible, C17_second_loop_nothing_new_without_faults / C17_second_loop_before_fix_partial show that the code without the repair satisfies the same conclusion for a tool that fails on what it cannot open and never otherwise (by the order in which str(self.response) writes extension elements). ONLY TESTED: agreement of the three models with the code (correspondence), the byte-level leak search (raw, XML-escaped, percent, numeric-entity, base64 at 3 alignments, hex), opening with each harness key, the IdP->SP round trip with first/second/no matching key pair, the C04/C05 mutations inside the plaintext.",
     "note": "Expects /repo + proposed_fix/C17-1.diff (advice left in clear by the early return of _response) + proposed_fix/C17-2.diff (assertions surfacing in the non-verifying second decrypt loop). Trusted: Coq kernel + vm_compute; the hand-written models tied to the code by three correspondence units; symbolic encryption (secrecy of the ciphers, key binding) — real 3DES/AES/RSA enter only through the stand-in tool (xmlsec1 is not installed; its node selection = first EncryptedData in document order, failure on a node no key opens, is an assumption; the skip variant is covered as a what-if). Not modelled: EncryptedID, several <Advice> children, assertion content other than what Model.Response carries, namespace handling of the self-contained variants (a tested no-op on the observables). Partial: the IdP theorems speak about strings of the symbolic tree, lengths / timing are outside.",
     "technique": "machine-checked proof (Coq: non-interference by case analysis over the option space, list induction for the decrypt loops, subsequence argument) + correspondence on real encrypted messages + implementation-level oracles",
 }
